@@ -332,6 +332,16 @@ def run_check(mod, argv):
     if forbidden and not coq_problem:
         coq_problem = "forbidden construct in development: " + "; ".join(forbidden[:5])
     gen_failed = {k: v for k, v in coq.get("gen_status", {}).items() if v != "ok"}
+    if gen_failed:
+        # a translation that failed concerns the properties whose obligations (or the extracted model every correspondence uses)
+        # are built from that generated file; for the others nothing is unproved
+        needed, where = gen_files_needed(pid), {}
+        try:
+            where = json.load(open(os.path.join(COQ, "Gen", "status_files.json")))
+        except (OSError, ValueError):
+            pass
+        if needed is not None:
+            gen_failed = {k: v for k, v in gen_failed.items() if where.get(k) is None or where[k] in needed}
     if thorough_coqchk(tier, pid, coq, ctx) is False and not coq_problem:
         coq_problem = "coqchk failed: " + ctx.stats.get("coqchk_tail", "")
 
@@ -451,6 +461,32 @@ def run_check(mod, argv):
     print("OK property=%s tier=%s obligations=%d evaluations=%d distinct_nontrivial=%d wall=%.1fs" %
           (pid, tier, len(theorems), evaluations, len(nontrivial), time.time() - t0))
     sys.exit(0)
+
+
+def gen_files_needed(pid):
+    """Names of the Gen/*.v files in the dependency closure of Properties/<pid>.v and Extract/Extract.v (from coq_makefile's
+    dependency file); None when that file cannot be read (then every failed translation counts)."""
+    deps = {}
+    try:
+        for line in open(os.path.join(COQ, ".Makefile.d")):
+            if ":" not in line:
+                continue
+            lhs, rhs = line.split(":", 1)
+            for t in lhs.split():
+                if t.endswith(".vo"):
+                    deps.setdefault(t, set()).update(d for d in rhs.split() if d.endswith(".vo"))
+    except OSError:
+        return None
+    seen, todo = set(), ["Properties/%s.vo" % pid, "Extract/Extract.vo"]
+    if todo[0] not in deps:
+        return None
+    while todo:
+        t = todo.pop()
+        if t in seen:
+            continue
+        seen.add(t)
+        todo.extend(deps.get(t, ()))
+    return {os.path.basename(t)[:-3] for t in seen if t.startswith("Gen/")}
 
 
 def thorough_coqchk(tier, pid, coq, ctx):
